@@ -150,6 +150,34 @@ theorem insertRowCloneOld_violates :
       (insertRowCloning m 0 9 (some 0)).state = m := by
   decide
 
+/-- **`Matrix::map_mut` / `map_mut_with_index` (and the `MatrixView` forms) with a closure that
+    panics on any call** — the model the driver answers the `m map_mut …`, `m map_mut_with_index …`,
+    `m map_div …` lines with: the matrix left behind satisfies the invariant and has the size it
+    had; the closure panics exactly when its panicking call number is below the element count,
+    and then the first `k` row-major elements hold the closure's results (from the old value and
+    its position) while the rest are untouched.  For a closure that ignores the position this is
+    C11's `mapMutPanic`, so `C11.inplace_map_panic_obs` and the extended histories speak about the
+    same function.  (The statement seeded change C10-r4m1 falsifies: it left `data = []`.) -/
+theorem leaf_inv_matrix_map_panic (m : Matrix α) (hm : m.Inv) (f : α → Nat → Nat → α)
+    (p : Option Nat) :
+    (matrixMapPanic m f p).state.Inv ∧
+      (matrixMapPanic m f p).state.size = m.size ∧
+      (matrixMapPanic m f p).state.data.length = m.data.length ∧
+      ((matrixMapPanic m f p).panic = some .explicit ↔ ∃ k, p = some k ∧ k < m.data.length) ∧
+      (∀ k, p = some k → k < m.data.length →
+        (matrixMapPanic m f p).state.data =
+          ((List.zip m.data (List.range m.data.length)).take k).map
+            (fun q => f q.1 (q.2 / m.columns) (q.2 % m.columns)) ++ m.data.drop k) ∧
+      (∀ (g : α → α) (k : Nat), matrixMapPanic m (fun x _ _ => g x) (some k) = m.mapMutPanic g k) := by
+  obtain ⟨h1, h2, h3, h4, _, h6⟩ := matrixMapPanic_spec m f p
+  refine ⟨matrixMapPanic_inv m hm f p, ?_, h3, h4, h6, fun g k => matrixMapPanic_eq_mapMutPanic m g k⟩
+  simp [Matrix.size, h1, h2]
+
+/-- non-vacuity: `x ↦ 12 / x` on `[[3, 0], [4, 6]]` panics at the zero; the 2×2 matrix keeps four
+    elements, the first mapped -/
+example : (matrixMapPanic (⟨[3, 0, 4, 6], 2, 2⟩ : Matrix Nat) (fun x _ _ => 12 / x) (some 1)).state =
+    ⟨[4, 0, 4, 6], 2, 2⟩ ∧ (⟨[3, 0, 4, 6], 2, 2⟩ : Matrix Nat).Inv := by decide
+
 example : (Matrix.fromFlatRowMajor 2 3 (List.range 6)).isSome = true ∧
     Matrix.fromFlatRowMajor (2 ^ 63 + 1) 2 [1, 2] = none ∧
     matrixEmpty (2 ^ 63) 2 7 = none := by decide
@@ -321,6 +349,136 @@ theorem view_unchecked_inBounds_partial [Inhabited ν] :
 
 example : ((MSource.ofMatrix 3 4).range 1 5 0 2).cell (1, 1) = some 9 := by decide
 
+/-! ## iterator constructors over empty and thin sources (the probe cases `@ piter` / `@ pten`) -/
+
+/-- **No iterator touches an empty source, and none leaves a non-empty one.**  For every element
+    iterator the model builds — `from`, `with_index` and the `from_numeric` twins build the same
+    iterator state; the flavours differ only in what they do with the resolved cell — and for
+    every number of calls `n`:
+
+    * over a tensor source one of whose lengths is zero, and over a matrix source with zero rows
+      or zero columns (0×N, N×0, 0×0; also views cut empty out of a non-empty matrix), the list of
+      unchecked accesses is **empty** for the row-major, column-major and diagonal iterators,
+      whatever the source would answer; the row / column iterator constructors refuse such a
+      source (the statement seeded change C10-r6m2 falsifies: one access at (0,0) of a 2×0 view);
+    * over any well-formed matrix source whose cells lie below `len` (a `Matrix`, any nest of
+      `MatrixRange` / `MatrixReverse`) every access of every iterator kind is a cell below `len`,
+      and there are exactly `min n total` of them. -/
+theorem iter_accesses_inBounds_incl_empty :
+    (∀ (src : TSource Nat) (n : Nat), 0 ∈ src.shape → tensorAccesses src n = .ok []) ∧
+    (∀ (src : MSource Nat) (n : Nat), src.rows = 0 ∨ src.columns = 0 →
+      matrixAccesses src .rowMajor n = .ok [] ∧ matrixAccesses src .columnMajor n = .ok [] ∧
+        matrixAccesses src .diagonal n = .ok [] ∧
+        (∀ r, matrixAccesses src (.row r) n = .panic .explicit) ∧
+        (∀ c, matrixAccesses src (.column c) n = .panic .explicit)) ∧
+    (∀ (src : MSource Nat) (len : Nat), src.WellFormed → MBounded src len → ∀ (order : MOrder) (n : Nat)
+      (accs : List Survivor.Access), matrixAccesses src order n = .ok accs →
+        (∀ a ∈ accs, ∃ o, a = some o ∧ o < len) ∧
+        accs.length = min n (match order with
+          | .rowMajor | .columnMajor => src.rows * src.columns
+          | .row _ => src.columns
+          | .column _ => src.rows
+          | .diagonal => min src.rows src.columns)) := by
+  refine ⟨fun src n h0 => ?_, fun src n h0 => ?_, fun src len hw hb order n accs h => ?_⟩
+  · have hp : prod src.shape = 0 := prod_eq_zero_of_mem _ h0
+    have E := shape_enumerates src.shape
+    rw [hp] at E
+    exact accesses_nil_of_total_zero E src.cell n
+  · have hz : src.rows * src.columns = 0 := by rcases h0 with h | h <;> simp [h]
+    have hm : min src.rows src.columns = 0 := by rcases h0 with h | h <;> simp [h]
+    refine ⟨?_, ?_, ?_, fun r => ?_, fun c => ?_⟩
+    · have E := rowMajor_enumerates src.rows src.columns
+      rw [hz] at E
+      exact accesses_nil_of_total_zero E src.cell n
+    · have E := colMajor_enumerates src.rows src.columns
+      rw [hz] at E
+      exact accesses_nil_of_total_zero E src.cell n
+    · have E := line_enumerates .diagonal (min src.rows src.columns)
+      rw [hm] at E
+      have := accesses_nil_of_total_zero E src.cell n
+      simpa [matrixAccesses, LineIter.newDiagonal, hm, lineNext] using this
+    · have : ¬ (r < src.rows ∧ 0 < src.columns) := by omega
+      simp [matrixAccesses, LineIter.newRow, this]
+    · have : ¬ (0 < src.rows ∧ c < src.columns) := by omega
+      simp [matrixAccesses, LineIter.newColumn, this]
+  · obtain ⟨F1, F2, F3, F4, F5⟩ := C09.matrix_source_faithful src hw
+    obtain ⟨L1, L2, L3⟩ := C09.line_iterators_enumerate src.rows src.columns
+    have finish : ∀ {total : Nat} (accs' : List Survivor.Access), Outcome.ok accs' = .ok accs →
+        accs'.length = min n total → (∀ a ∈ accs', ∃ o, a = some o ∧ o < len) →
+        (∀ a ∈ accs, ∃ o, a = some o ∧ o < len) ∧ accs.length = min n total := by
+      intro total accs' he hl hin
+      cases he
+      exact ⟨hin, hl⟩
+    cases order with
+    | rowMajor =>
+      obtain ⟨accs', he, hl, hin⟩ := accesses_bounded (rowMajor_enumerates src.rows src.columns) F1 len
+        (fun k hk => by
+          have hv := rowMajorItem_valid src.rows src.columns k (k / src.columns, k % src.columns)
+            (by simp [rowMajorItem, hk])
+          obtain ⟨c, hc, hlt⟩ := hb _ hv
+          exact ⟨_, c, by simp [rowMajorItem, hk], hc, hlt⟩) n
+      simp only [matrixAccesses] at h
+      rw [he] at h
+      exact finish accs' h hl hin
+    | columnMajor =>
+      obtain ⟨accs', he, hl, hin⟩ := accesses_bounded (colMajor_enumerates src.rows src.columns) F2 len
+        (fun k hk => by
+          have hv := colMajorItem_valid src.rows src.columns k (k % src.rows, k / src.rows)
+            (by simp [colMajorItem, hk])
+          obtain ⟨c, hc, hlt⟩ := hb _ hv
+          exact ⟨_, c, by simp [colMajorItem, hk], hc, hlt⟩) n
+      simp only [matrixAccesses] at h
+      rw [he] at h
+      exact finish accs' h hl hin
+    | row r =>
+      by_cases hr : r < src.rows ∧ 0 < src.columns
+      · obtain ⟨accs', he, hl, hin⟩ := accesses_bounded (L1 r) (F3 r hr.1) len
+          (fun k hk => by
+            obtain ⟨c, hc, hlt⟩ := hb (r, k) ⟨hr.1, hk⟩
+            exact ⟨_, c, by simp [rowItem, hk], hc, hlt⟩) n
+        have h' : matrixAccesses src (.row r) n =
+            accessesOf (collect (refNext lineNext src.cell) n ⟨.row r, ⟨0, src.columns⟩⟩) := by
+          simp [matrixAccesses, LineIter.newRow, hr]
+        rw [h', he] at h
+        exact finish accs' h hl hin
+      · have h' : matrixAccesses src (.row r) n = .panic .explicit := by
+          simp [matrixAccesses, LineIter.newRow, hr]
+        rw [h'] at h
+        cases h
+    | column c =>
+      by_cases hc : 0 < src.rows ∧ c < src.columns
+      · obtain ⟨accs', he, hl, hin⟩ := accesses_bounded (L2 c) (F4 c hc.2) len
+          (fun k hk => by
+            obtain ⟨c', hc', hlt⟩ := hb (k, c) ⟨hk, hc.2⟩
+            exact ⟨_, c', by simp [columnItem, hk], hc', hlt⟩) n
+        have h' : matrixAccesses src (.column c) n =
+            accessesOf (collect (refNext lineNext src.cell) n ⟨.column c, ⟨0, src.rows⟩⟩) := by
+          simp [matrixAccesses, LineIter.newColumn, hc]
+        rw [h', he] at h
+        exact finish accs' h hl hin
+      · have h' : matrixAccesses src (.column c) n = .panic .explicit := by
+          simp [matrixAccesses, LineIter.newColumn, hc]
+        rw [h'] at h
+        cases h
+    | diagonal =>
+      obtain ⟨accs', he, hl, hin⟩ := accesses_bounded L3 F5 len
+        (fun k hk => by
+          obtain ⟨c, hc, hlt⟩ := hb (k, k) ⟨by omega, by omega⟩
+          exact ⟨_, c, by simp [diagonalItem, hk], hc, hlt⟩) n
+      simp only [matrixAccesses] at h
+      rw [he] at h
+      exact finish accs' h hl hin
+
+/-- non-vacuity: the 2×0 view of the seeded change, a 0×3 matrix, and a view cut empty in one
+    direction out of a 2×3 matrix; a tensor source with a zero length -/
+example : matrixAccesses (MSource.ofMatrix 2 0) .columnMajor 5 = .ok [] ∧
+    matrixAccesses (MSource.ofMatrix 0 3) .rowMajor 5 = .ok [] ∧
+    ((MSource.ofMatrix 2 3).range 0 2 3 2).columns = 0 ∧
+    matrixAccesses ((MSource.ofMatrix 2 3).range 0 2 3 2) .columnMajor 4 = .ok [] ∧
+    matrixAccesses ((MSource.ofMatrix 2 3).range 0 2 1 2) .columnMajor 9 =
+      .ok [some 1, some 4, some 2, some 5] := by
+  refine ⟨rfl, rfl, by decide, rfl, rfl⟩
+
 /-! ## `unchecked_safe`: every leaf access of a program of the modelled fragment passes the monitor -/
 
 /-- **Tensor programs**: build a tensor with a constructor, run any history of operations
@@ -390,6 +548,49 @@ example :
       (run t0 [.reshapeMut [("x", 7)], .reorderMut ["b", "a"]]).shape = [("b", 3), ("a", 2)] ∧
       shapeItem [3, 2] 3 = some [1, 1] := by
   refine ⟨_, rfl, ?_, ?_⟩ <;> decide
+
+/-- **`unchecked_safe` without hypotheses on the container** (matrices): build a matrix with ANY
+    public constructor (`from_scalar`, `row`, `column`, `from`, `from_flat_row_major`, `from_fn`,
+    `empty`, `diagonal`, `from_diagonal` — C11's `Ctor`, with any arguments; a constructor call
+    that panics produces no matrix), subject it to ANY finite history over C11's extended
+    alphabet — the 13 resizing / in-place operations with any arguments and the operations whose
+    user closure or iterator panics at any call, panics caught and the object used again — and
+    then iterate it row-major, column-major, along the diagonal or along any existing row or
+    column: every position handed to the leaf passes the monitor's predicate.  (The tensor half of
+    `unchecked_safe` already starts from the public constructor `Tensor::try_from` and any
+    history including panicking closures.) -/
+theorem unchecked_safe_constructed (c : Matrix.Ctor α) (m0 : Matrix α) (xs : List (Matrix.XOp α))
+    (hc : c.build = .ok m0) (k : Nat) (p : Nat × Nat)
+    (hp : rowMajorItem (m0.xrun xs).rows (m0.xrun xs).columns k = some p ∨
+      colMajorItem (m0.xrun xs).rows (m0.xrun xs).columns k = some p ∨
+      diagonalItem (m0.xrun xs).rows (m0.xrun xs).columns k = some p ∨
+      (∃ row, row < (m0.xrun xs).rows ∧ rowItem (m0.xrun xs).columns row k = some p) ∨
+      (∃ column, column < (m0.xrun xs).columns ∧ columnItem (m0.xrun xs).rows column k = some p)) :
+    MatrixAccessOk (m0.xrun xs) p := by
+  obtain ⟨_, _, hmat, _, _, _, hdiag, _⟩ := iter_unchecked_inBounds
+  have hi : (m0.xrun xs).Inv := (C11.constructed_xhistory_refines c m0 hc xs).1
+  apply matrixAccessOk_of_inv _ hi
+  rcases hp with h | h | h | ⟨row, hr, h⟩ | ⟨column, hcol, h⟩
+  · exact hmat _ _ k p (Or.inl h)
+  · exact hmat _ _ k p (Or.inr h)
+  · exact hdiag _ _ k p h
+  · unfold rowItem at h
+    split at h
+    · rename_i hk; cases h; exact ⟨hr, hk⟩
+    · cases h
+  · unfold columnItem at h
+    split at h
+    · rename_i hk; cases h; exact ⟨hk, hcol⟩
+    · cases h
+
+/-- non-vacuity: `Matrix::from_flat_row_major((2, 2), …)`, a `map_mut` whose closure panics on its
+    second call, a rejected `remove_row(7)`, an `insert_row`: a 3×2 matrix with six elements -/
+example :
+    let c : Matrix.Ctor Nat := .fromFlatRowMajor 2 2 [1, 2, 3, 4]
+    let xs : List (Matrix.XOp Nat) := [.mapMutPanic (· + 10) 1, .op (.removeRow 7), .op (.insertRow 0 9)]
+    c.build = .ok ⟨[1, 2, 3, 4], 2, 2⟩ ∧
+      (Matrix.xrun ⟨[1, 2, 3, 4], 2, 2⟩ xs) = ⟨[9, 9, 11, 2, 3, 4], 3, 2⟩ := by
+  exact ⟨rfl, rfl⟩
 
 /-! ## the access log the monitor records is the one the model predicts -/
 
